@@ -38,8 +38,8 @@ KEYS24 = ["q24", "c24", "n24", "i24"]
 
 def async_records(job):
     """one scenario per driver: a caller sends a list of commands one by one; returns tx records"""
-    drv, items = job
-    sc = {"driver": drv, "keep_writes": 1, "first_seq": 250,
+    drv, items = job[0], job[1]
+    sc = {"driver": drv, "keep_writes": 1, "first_seq": job[2] if len(job) > 2 else 250,
           "callers": [{"name": "A", "unit": items, "mode": "send", "continue_on": ["UnsupportedFrameTypeError", "ValueError"]}]}
     r = drivers.run_scenario(sc)
     recs = []
@@ -303,6 +303,9 @@ def run(tier, seed, replay=None):
                 for pos in (40, 41, 300):                                               # ... with refusals in between
                     items.insert(pos, [rng.choice(["odd8", "odd25"]), rng.randrange(256)])
                 jobs.append((drv, items))
+                # fresh drivers whose random start of the sequence counter falls on either end of the range it is drawn from
+                for fs in ("lo", "hi"):
+                    jobs.append((drv, [[rng.choice(keys), rng.randrange(256)] for _ in range(6)], fs))
             else:
                 for _ in range(4):
                     jobs.append((drv, [[rng.choice(keys), rng.randrange(256)] for _ in range(n // 8)]))
